@@ -85,6 +85,14 @@ def apply(geo, op, a, values):
     elif op == 'reduce': geo.reduce([cl[k] for k in a])
     elif op == 'delete_layer': geo.delete_layer(ll[a[0]].name)
     elif op == 'translate': geo.translate(np.array([_val(values, 'tx', 2.5), _val(values, 'ty', -1.5), _val(values, 'tz', 4.)]))
+    elif op == 'copy_layers_from':
+        from mulgrids import mulgrid
+        geo.copy_layers_from(mulgrid().rectangular([1.], [1.], [_val(values, 'cdz%d' % k, 3. + k) for k in range(a[0])], origin=[0., 0., _val(values, 'coz', 90.)]))
+    elif op == 'wells':
+        from mulgrids import well
+        for nm in ('w   1', 'w   2'): geo.add_well(well(nm, [np.array([1., 2., 3.]), np.array([1., 2., -3.])]))
+        geo.add_well(well('w   1', [np.zeros(3)])); geo.delete_well('w   1')
+    elif op == 'rotate90': geo.rotate(90 * a[0], np.array([_val(values, 'rcx', 1.5), _val(values, 'rcy', -2.5)]))
     elif op == 'snap_to_layers': geo.snap_columns_to_layers(_val(values, 'snap', 0.3))
     elif op == 'snap_to_nearest': geo.snap_columns_to_nearest_layers()
     elif op == 'delete_connection': geo.delete_connection(tuple(c.name for c in geo.connectionlist[a[0]].column))
@@ -136,5 +144,6 @@ def native_edit(arg, values, clause):
     dom = (rects[0][0], rects[-1][1], rects[0][2], rects[-1][3])
     if op == 'translate':
         t = (_val(values, 'tx', 2.5), _val(values, 'ty', -1.5)); dom = (dom[0] + t[0], dom[1] + t[0], dom[2] + t[1], dom[3] + t[1])
+    if op in ('rotate90', 'reduce'): dom = None
     bad = wf(geo, valid_mesh=True, domain=dom)[clause]
     return (not bad), '; '.join(bad[:3]) or 'clause holds'
